@@ -75,7 +75,7 @@ def expected_nodes(prog):
         c = "constrained" if o in cons else "None"
         if s["op"] == "linear":
             exp[("linear", c)] += 1
-        elif s["op"] == "seq":
+        elif s["op"] in ("seq", "mlp2"):
             exp[("linear", c)] += 2
         elif s["op"] == "sdpa":
             exp[("scaled_dot_product_attention", "-")] += 1
